@@ -389,6 +389,20 @@ func (rm *room) defaultPL(creator user) map[string]any {
 		}
 		rm.r.Probe("room_where_low_levels_send_power_levels")
 	}
+	if !intOnlyVersions[rm.ver] && rm.acceptsLevelsAsStrings() && len(rm.users) > 2 && rm.t.Chance(60) {
+		// levels at the edges of int64 (spelled as strings, legal before room
+		// version 10), with thresholds below all of them so that every one of
+		// these users sends state events: differences of two levels do not fit
+		// in an int64
+		// (the creator stays at 100: the first power levels are judged against
+		// the defaults, under which nobody may go above that)
+		users[rm.users[1].id] = sim.Pick(rm.t, []any{"-9223372036854775808", "-9223372036854775807", "-9223372036854775808"})
+		users[rm.users[2].id] = sim.Pick(rm.t, []any{50, 0, 7, 100})
+		for _, k := range []string{"state_default", "events_default", "invite"} {
+			pl[k] = "-9223372036854775808"
+		}
+		rm.r.Probe("room_with_levels_at_the_edges_of_int64")
+	}
 	return pl
 }
 
@@ -433,4 +447,12 @@ func (rm *room) currentPL(st map[ref.Key]string) map[string]any {
 		return nil
 	}
 	return m
+}
+
+// acceptsLevelsAsStrings: does this room version read a level spelled as a
+// string? (Asked of the version's own parser; only the generator uses it, to
+// stay within what the version admits.)
+func (rm *room) acceptsLevelsAsStrings() bool {
+	var c gmsl.PowerLevelContent
+	return rm.impl.ParsePowerLevels([]byte(`{"users_default":"1"}`), &c) == nil
 }
